@@ -3,6 +3,7 @@
 package harness
 
 import (
+	"strconv"
 	"bufio"
 	"encoding/json"
 	"fmt"
@@ -122,7 +123,26 @@ func (o *out) close() {
 	}
 }
 
-func join(ss []string) string { return strings.Join(ss, "") }
+// join renders a sequence of the specification's characters; an element "U+XXXX" stands for that code point, "B+XX" for that byte
+func join(ss []string) string {
+	var b strings.Builder
+	for _, e := range ss {
+		if strings.HasPrefix(e, "B+") && len(e) == 4 {
+			if n, err := strconv.ParseUint(e[2:], 16, 8); err == nil {
+				b.WriteByte(byte(n))
+				continue
+			}
+		}
+		if strings.HasPrefix(e, "U+") {
+			if n, err := strconv.ParseUint(e[2:], 16, 32); err == nil {
+				b.WriteRune(rune(n))
+				continue
+			}
+		}
+		b.WriteString(e)
+	}
+	return b.String()
+}
 
 func joinAll(sss [][]string) []string {
 	r := make([]string, len(sss))
